@@ -8,7 +8,7 @@ TRUSTED_BASE = [
     "Lean compiler + Lean.Data.Json for the driver executable (runs the same definitions the kernel checked)",
 ]
 
-HOOK_COMMITS = []
+HOOK_COMMITS = ['29c34ddaf3812206b80b304f6abbacb43e4cae90', '93cc9ce726e1507a1c511438d2de9813e612090d', 'd22ecd6dd600c9f8c9b8a5a371d3a6efae140d03']
 NOT_APPLICABLE = {}
 
 PROPS = {
